@@ -144,6 +144,13 @@ def _worker(args):
     devnull = os.open(os.devnull, os.O_WRONLY)
     os.dup2(devnull, 1)
     os.dup2(devnull, 2)
+    try:
+        # `kill -USR1 <worker pid>` appends the worker's Python stacks to /var/tmp/dfverif-stacks.txt (diagnosing hangs)
+        import faulthandler
+        import signal as _sig
+        faulthandler.register(_sig.SIGUSR1, file=open('/var/tmp/dfverif-stacks.txt', 'a'), all_threads=True)
+    except Exception:
+        pass
     res = ShardResult()
     ctx = None
     try:
